@@ -495,10 +495,8 @@ Proof.
   pose proof (run_ll_sim m steps _ _ Hnd (start_env_at_rest m reset from el Hrest) (start_env_sim m reset from el e HR)) as Hs.
   destruct (run_ll m steps (start_env_ll m reset from el)) as [[el1 o1] ok1].
   destruct (run_steps m steps (start_env m reset from e)) as [[e1 o] ok].
-  destruct Hs as (-> & -> & HR1 & Hr1). destruct stateful; repeat split; try assumption.
-  - apply restore_sim; assumption.
-  - apply restore_at_rest; assumption.
-  - apply restore_at_rest; assumption.
+  destruct Hs as (-> & -> & HR1 & Hr1). split; [reflexivity|]. split; [reflexivity|].
+  destruct stateful; (split; [|try apply restore_at_rest; assumption]); [assumption|apply restore_sim; assumption].
 Qed.
 
 (* stated with the abstraction function *)
@@ -511,7 +509,7 @@ Proof.
   intros Hnd Hrest. pose proof (run_op_ll_sim m stateful reset from steps el (abs el) Hnd Hrest (R_abs el)) as Hs.
   destruct (run_op_ll m stateful reset from steps el) as [[el1 o1] ok1].
   destruct (run_op m stateful reset from steps (abs el)) as [[e1 o] ok].
-  destruct Hs as (A & B & C & D). repeat split; try assumption; try apply D. apply R_abs_eq. assumption.
+  destruct Hs as (A & B & C & D). split; [assumption|]. split; [assumption|]. split; [apply R_abs_eq; assumption|assumption].
 Qed.
 
 (* Model.call = the one-step run *)
@@ -532,7 +530,7 @@ Proof.
   destruct (step m forced ext e0) as [e1 ok]. cbn [fst snd] in *. subst ok1.
   assert (Hq2 : quiet m (if stateful then el1 else restore_lst (ids_of m) el el1)).
   { destruct stateful; [assumption|]. destruct Hq as [Qc Qp]. split; intros n; [|intros Hn];
-      destruct (restore_lst_fields el (ids_of m) el1 n) as (_ & -> & ->); auto. }
+      destruct (restore_lst_fields el (ids_of m) el1 n) as (_ & Ep & Ec); [rewrite Ec|rewrite Ep]; auto. }
   assert (HR2 : R (if stateful then el1 else restore_lst (ids_of m) el el1) (if stateful then e1 else restore_st (ids_of m) e e1)).
   { destruct stateful; [assumption|apply restore_sim; assumption]. }
   destruct ok; (split; [|split; [reflexivity|split; [apply clean_R; assumption|apply clean_at_rest; assumption]]]).
@@ -563,6 +561,101 @@ Proof.
     destruct (call_op_ll m stateful reset from ext forced el) as [[el1 o1] ok1].
     destruct (run_op m stateful reset from [(ext, forced)] (abs el)) as [[e1 o] ok]. apply Hs.
   - apply (reset_op_ll_sim m el (abs el) Hrest (R_abs el)).
+Qed.
+
+(* ------------------------------------------------------------------ R3: consequences for the low-level model *)
+(* C05, the mechanism: a receiver called anywhere in a step - after a prefix [pre] of the execution order has already
+   run and possibly overwritten the sender's `_state` - reads what the sender's proxy held when the step began. *)
+Lemma fb_read_frozen (m : model) ext pre (d : ndesc) s (elin elmid : lenv) ok v :
+  nfb d = Some (FbNode s) ->
+  clamp (elin (nid d)) = None ->
+  (proxy (elin s) = Some v \/ (proxy (elin s) = None /\ lst (elin s) = v /\ ~ In s (map nid pre))) ->
+  forward_from_ll m ext pre elin = (elmid, ok) ->
+  fst (fb_read d elmid) = Some v.
+Proof.
+  intros Hfb Hc Hs Hf. destruct (forward_from_ll_fields _ _ _ _ _ _ Hf) as (P & C & Fr).
+  unfold fb_read. rewrite Hfb, (C _ Hc). cbn. f_equal. unfold state_proxy. rewrite P.
+  destruct Hs as [->|(-> & <- & Hn)]; [reflexivity|]. rewrite (Fr s Hn). reflexivity.
+Qed.
+
+Lemma fb_enter_all_none (ds : list ndesc) (e : lenv) n : NoDup (map nid ds) ->
+  fb_enter_all (fun _ => None) ds e n = e n.
+Proof.
+  intros Hnd. rewrite fb_enter_all_find by assumption. destruct (findn ds n) as [d|]; [|reflexivity].
+  unfold tenter, forced_value. destruct (nfb d) as [[?|?]|]; reflexivity.
+Qed.
+
+Lemma lenv_after_sim (m : model) : NoDup (ids_of m) -> forall k steps (el : lenv) (e : env),
+  ready m el -> R el e -> lsteps_ok m steps el k = true ->
+  ready m (lenv_after m steps el k) /\ R (lenv_after m steps el k) (env_after m steps e k).
+Proof.
+  intros Hnd. induction k as [|k IH]; intros steps el e Hr HR Hok; [destruct steps as [|[? ?] ?]; simpl; split; assumption|].
+  destruct steps as [|[ext forced] steps]; [simpl; split; assumption|]. cbn [lenv_after env_after lsteps_ok] in *.
+  destruct (step_sim m forced ext el e Hnd Hr HR) as (Ho & HR1 & _ & Hrd).
+  destruct (step_ll m forced ext el) as [el1 ok1]. cbn [fst snd] in *. destruct ok1; [|discriminate].
+  apply IH; auto.
+Qed.
+
+(* C05 at run level: inside Model._run started from rest, if the first k steps succeeded then during step k (taken
+   without forced feedback) receiver d - wherever it sits in the execution order - is handed the state its sender had
+   at the end of step k-1, which is the state ModelSem says the sender had. *)
+Theorem run_feedback_delay_ll (m : model) (d : ndesc) s pre suf steps (el0 : lenv) k ext (elmid : lenv) okmid :
+  NoDup (ids_of m) -> at_rest el0 ->
+  order m = pre ++ d :: suf -> nfb d = Some (FbNode s) ->
+  lsteps_ok m steps (load_proxys m true el0) k = true ->
+  let elk := lenv_after m steps (load_proxys m true el0) k in
+  forward_from_ll m ext pre (fb_enter_all (fun _ => None) (order m) elk) = (elmid, okmid) ->
+  fst (fb_read d elmid) = Some (lst (elk s)) /\
+  lst (elk s) = st (env_after m steps (abs el0) k s).
+Proof.
+  intros Hnd Hrest Ho Hfb Hok elk Hf.
+  assert (Hr0 : ready m (load_proxys m true el0)).
+  { apply load_ready; [assumption|apply at_rest_quiet; assumption|]. intros _ n _. apply Hrest. }
+  destruct (lenv_after_sim m Hnd k steps _ (abs el0) Hr0 (load_R m true el0 _ (R_abs el0)) Hok) as [(Hc & Hpi & Hpo) HRk].
+  fold elk in Hc, Hpi, Hpo, HRk. split; [|apply HRk].
+  unfold ids_of in *.
+  eapply fb_read_frozen; [exact Hfb| | |exact Hf].
+  - rewrite fb_enter_all_none by assumption. apply Hc.
+  - rewrite fb_enter_all_none by assumption.
+    destruct (in_dec Nat.eq_dec s (map nid (order m))) as [Hi|Hi]; [left; apply Hpi; assumption|].
+    right. split; [apply Hpo; assumption|]. split; [reflexivity|].
+    intros Hp. apply Hi. rewrite Ho, map_app. apply in_or_app. left. assumption.
+Qed.
+
+(* C07: Model._run over xs ++ ys is Model._run over xs, then over ys - both seams are at rest *)
+Theorem run_ll_app (m : model) xs ys (el : lenv) : NoDup (ids_of m) -> at_rest el ->
+  let '(e12, o12, ok12) := run_ll m (xs ++ ys) el in
+  let '(e1, o1, ok1) := run_ll m xs el in
+  if ok1 then let '(e2, o2, ok2) := run_ll m ys e1 in o12 = o1 ++ o2 /\ ok12 = ok2 /\ (forall n, e12 n = e2 n)
+  else o12 = o1 /\ ok12 = false /\ (forall n, e12 n = e1 n).
+Proof.
+  intros Hnd Hrest.
+  pose proof (run_ll_sim m (xs ++ ys) el (abs el) Hnd Hrest (R_abs el)) as H12.
+  pose proof (run_ll_sim m xs el (abs el) Hnd Hrest (R_abs el)) as H1.
+  rewrite run_steps_app in H12.
+  destruct (run_ll m (xs ++ ys) el) as [[e12 o12] ok12]. destruct (run_ll m xs el) as [[e1 o1] ok1].
+  destruct (run_steps m xs (abs el)) as [[a1 p1] k1]. destruct H1 as (-> & -> & HR1 & Hr1).
+  assert (Heq : forall (x y : lenv) (a : env), R x a -> R y a -> at_rest x -> at_rest y -> forall n, x n = y n).
+  { intros x y a Hx Hy Rx Ry n. destruct (Hx n), (Hy n), (Rx n), (Ry n). apply lnode_eq; congruence. }
+  destruct k1.
+  - pose proof (run_ll_sim m ys e1 a1 Hnd Hr1 HR1) as H2.
+    destruct (run_ll m ys e1) as [[e2 o2] ok2]. destruct (run_steps m ys a1) as [[a2 p2] k2].
+    destruct H12 as (-> & -> & HR12 & Hr12). destruct H2 as (-> & -> & HR2 & Hr2).
+    split; [reflexivity|]. split; [reflexivity|]. apply (Heq _ _ a2); assumption.
+  - destruct H12 as (-> & -> & HR12 & Hr12). split; [reflexivity|]. split; [reflexivity|]. apply (Heq _ _ a1); assumption.
+Qed.
+
+(* C08: a stateful=False Model.run leaves every `_state` as it was, failing or not - and leaves no proxy or clamp behind *)
+Theorem stateless_preserves_state_ll (m : model) reset from steps (el el' : lenv) outs ok :
+  NoDup (ids_of m) -> at_rest el ->
+  run_op_ll m false reset from steps el = (el', outs, ok) ->
+  (forall n, lst (el' n) = lst (el n)) /\ at_rest el'.
+Proof.
+  intros Hnd Hrest Hrun.
+  pose proof (run_op_ll_sim m false reset from steps el (abs el) Hnd Hrest (R_abs el)) as Hs. rewrite Hrun in Hs.
+  destruct (run_op m false reset from steps (abs el)) as [[e1 o] k] eqn:E.
+  destruct Hs as (_ & _ & HR & Hr). split; [|assumption]. intros n.
+  destruct (HR n) as [-> _]. rewrite (stateless_preserves_state m reset from steps _ _ _ _ E n). reflexivity.
 Qed.
 
 End Refine.
